@@ -111,7 +111,8 @@ def run(job, seed):
     N = MENU[tier][job['n']]
     O = MENU[tier][job['o']]
     ovr = OVR[tier]
-    for renamed, two in ((True, False), (True, True), (False, False)):
+    for renamed, two in ((True, False), (True, True), (False, False),
+                         (True, 'sibling')):
         new1 = 'svc:new'
         old = 'svc:old' if renamed else new1
         new2 = 'svc:new2'
@@ -149,17 +150,22 @@ def run(job, seed):
                     old, O, deprecated_reason='because' if noise else 'r',
                     deprecated_since='Z' if noise else '1.0')
                 defs = [P.RuleDefault(new1, N, deprecated_rule=dep)]
-                if two:
+                if two == 'sibling':
+                    # the predecessor's own name stays registered (same-name
+                    # deprecation) next to the renamed policy
+                    defs.append(P.RuleDefault(old, N2, deprecated_rule=dep))
+                elif two:
                     defs.append(P.RuleDefault(new2, N2, deprecated_rule=dep))
                 enf.register_defaults(defs)
                 checks = [(new1, N, new_ovr)]
-                if two:
+                if two is True:
                     checks.append((new2, N2, None))
                 acc.case('table', new_ovr is not None or old_ovr is not None
                          or N != O)
                 for name, nd, novr in checks:
                     exp = ref_new(nd, O, end, novr, old_ovr, renamed, name)
-                    if two and old_ovr == 'rule:%s' % new1 and name == new2:
+                    if two is True and old_ovr == 'rule:%s' % new1 and \
+                            name == new2:
                         # alias names the *other* new policy: for new2 it is
                         # an arbitrary override referring to new1
                         # -> new2 decides as svc:new does
